@@ -153,6 +153,25 @@ func main() {
 	r.Finish()
 }
 
+// tpqCase writes a timed-queue history; "@k" stands for the k-th near instant, "#i" for farInstants[i].
+func tpqCase(dir string, ops ...string) []string {
+	out := []string{"tpq new " + dir}
+	for _, op := range ops {
+		f := strings.Fields(op)
+		for i, tok := range f {
+			switch {
+			case strings.HasPrefix(tok, "@"):
+				f[i] = instantString(nearInstant(atoi(tok[1:])))
+			case strings.HasPrefix(tok, "#"):
+				f[i] = instantString(farInstants[atoi(tok[1:])])
+			}
+		}
+		out = append(out, "tpq "+strings.Join(f, " "))
+	}
+
+	return out
+}
+
 // corpus: hand-written histories for the corners named by the property (run first).
 var corpus = [][]string{
 	// ring buffer wrapping several times
@@ -176,12 +195,17 @@ var corpus = [][]string{
 	{"pq new asc", "pq push 0 3", "pq push 1 1", "pq push 2 2", "pq push 3 1", "pq remove 1", "pq remove 1", "pq size", "pq pop", "pq remove 3", "pq pop", "pq pop", "pq pop", "pq remove 0"},
 	{"pq new desc", "pq push 0 3", "pq push 1 1", "pq push 2 2", "pq peek", "pq popuntil 2", "pq size", "pq popall", "pq isempty"},
 	{"gh new asc", "gh push 0 5", "gh push 1 4", "gh push 2 3", "gh push 3 2", "gh push 4 1", "gh dump", "gh index 0", "gh index 4", "gh remove 2", "gh dump", "gh remove 2", "gh index 2", "gh pop", "gh dump", "gh remove 0", "gh remove 1", "gh remove 3", "gh pop"},
-	{"tpq new default", "tpq push 0 1 0", "tpq push 1 3 1", "tpq push 2 2 2", "tpq peek", "tpq popuntil 2 3", "tpq popall"},
-	{"tpq new asc", "tpq push 0 1 4", "tpq push 1 3 5", "tpq push 2 2 0", "tpq push 3 2 2", "tpq peek", "tpq popuntil 2 1", "tpq pop", "tpq pop", "tpq isempty"},
+	tpqCase("default", "push 0 @1 0", "push 1 @3 1", "push 2 @2 2", "peek", "popuntil @2 3", "popall"),
+	tpqCase("asc", "push 0 @1 4", "push 1 @3 5", "push 2 @2 0", "push 3 @2 2", "peek", "popuntil @2 1", "pop", "pop", "isempty"),
 	// the same instant in different time.Time representations: bound == pushed instant, both directions
-	{"tpq new desc", "tpq push 0 2 0", "tpq popuntil 2 1", "tpq size", "tpq push 1 2 2", "tpq push 2 2 4", "tpq push 3 1 3", "tpq popuntil 2 5", "tpq size", "tpq popuntil 1 0", "tpq isempty"},
-	{"tpq new asc", "tpq push 0 2 3", "tpq popuntil 2 4", "tpq size", "tpq push 1 2 5", "tpq push 2 2 1", "tpq push 3 3 0", "tpq popuntil 2 2", "tpq size", "tpq popuntil 3 4", "tpq isempty"},
-	{"tpq new desc", "tpq push 0 0 0", "tpq push 1 0 1", "tpq push 2 0 2", "tpq push 3 0 3", "tpq push 4 0 4", "tpq push 5 0 5", "tpq push 6 -1 1", "tpq push 7 1 4", "tpq pop", "tpq popuntil 0 3", "tpq popall"},
+	tpqCase("desc", "push 0 @2 0", "popuntil @2 1", "size", "push 1 @2 2", "push 2 @2 4", "push 3 @1 3", "popuntil @2 5", "size", "popuntil @1 0", "isempty"),
+	tpqCase("asc", "push 0 @2 3", "popuntil @2 4", "size", "push 1 @2 5", "push 2 @2 1", "push 3 @3 0", "popuntil @2 2", "size", "popuntil @3 4", "isempty"),
+	tpqCase("desc", "push 0 @0 0", "push 1 @0 1", "push 2 @0 2", "push 3 @0 3", "push 4 @0 4", "push 5 @0 5", "push 6 @-1 1", "push 7 @1 4", "pop", "popuntil @0 3", "popall"),
+	// far instants (outside what UnixNano can represent): zero time, 1000, 1677, the ends of the int64 range, 2263, 9999, "never"
+	tpqCase("asc", "push 0 #8 0", "push 1 @2 1", "push 2 #0 2", "push 3 #10 3", "push 4 #9 0", "push 5 #1 1", "push 6 #11 2", "push 7 #2 3", "peek", "popuntil @3 0", "pop", "pop", "popuntil #10 1", "popall"),
+	tpqCase("desc", "push 0 #8 0", "push 1 @2 1", "push 2 #0 2", "push 3 #10 3", "push 4 #9 0", "push 5 #1 1", "push 6 #11 2", "push 7 #2 3", "peek", "popuntil #8 2", "pop", "pop", "popuntil #0 1", "popall"),
+	tpqCase("asc", "push 0 #3 0", "push 1 #4 1", "push 2 #5 2", "push 3 #6 3", "push 4 #7 0", "pop", "popuntil #6 1", "popall"),
+	tpqCase("default", "push 0 #3 0", "push 1 #4 1", "push 2 #5 2", "push 3 #6 3", "push 4 #7 0", "pop", "popuntil #4 1", "popall"),
 	{"stack new simple", "stack pop", "stack push 1", "stack push 2", "stack peek", "stack pop", "stack size", "stack clear", "stack isempty", "stack pop", "stack push 3", "stack pop"},
 	{"stack new safe", "stack pop", "stack push 1", "stack push 2", "stack peek", "stack pop", "stack size", "stack clear", "stack isempty", "stack pop", "stack push 3", "stack pop"},
 }
